@@ -4,7 +4,7 @@
    specification and proofs: Chain/ChainProofs.v. *)
 From Coq Require Import String.
 From Verif Require Import Base Fmap.
-From Verif.Chain Require Import Chain ChainProofs Zero Emit.
+From Verif.Chain Require Import Chain ChainProofs Zero Emit ComposeIR.
 Open Scope list_scope.
 
 (* Compose, any number of stages: if stage k is the first to fail (with e) when every earlier
@@ -148,3 +148,15 @@ Theorem C16_compose_no_results_refuted :
   /\ list_pinned [] "err0" <> String.concat ", " ([] ++ ["err0"%string]).
 Proof. exact compose_no_results_refuted. Qed.
 Print Assumptions C16_compose_no_results_refuted.
+
+(* the statement list compose.genError prints (variables v_i_j, err_i), interpreted with an
+   environment, IS the functional model above — every chain length, every arity vector
+   (0 values included), every stage oracle that returns as many values as the next stage takes *)
+Theorem C16_compose_body_correct :
+  forall (V E : Type) (zero : V) (fs : list (@stage V E)) (ar : list nat) (args : list V),
+  arity_ok fs ar ->
+  hd 0 ar = length args ->
+  exec zero fs (compose_body ar) (combine (vrow 0 (length args)) args) [] [] =
+    Some (compose zero fs (last ar 0) args).
+Proof. exact @compose_body_correct. Qed.
+Print Assumptions C16_compose_body_correct.
